@@ -117,6 +117,17 @@ CHECKS["C04"] = dict(
     design_ref="DESIGN.md section 6, C04",
 )
 
+CHECKS["C02"] = dict(
+    category="other",
+    technique="RefCell typestate over the per-instance call graph (guard live ranges from MIR drops, transitive borrow summaries), call-graph SCC depth-guard rule, panic ledger and loop-progress rules on the shaping modules, MIR dominance/must-pass-through rules on Font::shape and the GSUB drivers, match-table domain agreement",
+    text=("Static decision of the structural clauses of C02: bounded recursion, no conflicting RefCell borrow while a guard is alive (for every "
+          "call sequence), explicit panic discipline and loop progress in the shaping modules, Font::shape never returns an error without the "
+          "glyph run and records every fallible step, every Ok path of the GSUB drivers clamps glyph ids through replace_missing_glyphs, and "
+          "the script tag tables of the Indic shaper agree. Implicit index/arithmetic panics in the reordering machines and the value clauses "
+          "(attachments inside the run, characters of the input) are not decided."),
+    design_ref="DESIGN.md section 6, C02",
+)
+
 NOT_APPLICABLE = {
     "C05": "every clause is a numeric relation between table contents and output values; the structural parts (termination, borrow and panic discipline, attachment index validation) are decided under C02; no GPOS-specific clause is visible in the shape of the code",
 }
